@@ -301,6 +301,27 @@ fn stark_domain_of_air<B: Fld>(rng: &mut Rng, st: &mut State) {
         }
         x *= g;
     }
+    // the column-batched and segmented LDE over this domain (constraint-evaluation domain possibly smaller than
+    // the LDE domain): both must return the evaluations over the whole LDE domain, offset * w_lde^i
+    {
+        let ncols = rng.range(1, 4);
+        let polys = ColMatrix::new((0..ncols).map(|_| (0..n).map(|_| B::from_res(rng.u128() % B::FP.p)).collect::<Vec<B>>()).collect());
+        let big = domain::<B>(n * blowup, B::GENERATOR);
+        let cm = polys.evaluate_columns_over(&dom);
+        let rm = RowMatrix::<B>::evaluate_polys_over::<8>(&polys, &dom);
+        if cm.num_rows() != n * blowup || cm.num_cols() != ncols || rm.num_rows() != n * blowup || rm.num_cols() != ncols {
+            bad("lde-over-air-domain:shape", st);
+        } else {
+            for k in 0..12 {
+                let (c, r) = if k < 2 { (0, [0, n * blowup - 1][k]) } else { (rng.usize(ncols), rng.usize(n * blowup)) };
+                let want = p_eval::<B, B>(polys.get_column(c), big[r]);
+                if cm.get(c, r) != want || rm.get(c, r) != want {
+                    bad("lde-over-air-domain:value", st);
+                    break;
+                }
+            }
+        }
+    }
     st.evals += 1;
     st.count(&format!("{t}.stark_domain_of_air"));
     if ce < n * blowup {
@@ -365,7 +386,7 @@ fn main() {
         require.push((format!("{t}.matrix.wide"), 1));
     }
     run.finish(Finish {
-        rule: "per case one size 2^k (k cycles over 1..max) and polynomial (random / low degree / monomial): evaluate_poly, serial_fft, interpolate_poly, evaluate_poly_with_offset (offset 1/generator/random, blowup 1..128), interpolate_poly_with_offset, infer_degree, twiddles vs direct evaluation at explicitly computed points (all points while n*deg <= limit, boundary+sampled points above); matrices of {1,2,3,7,8,9,15,16,17,31,64,85,254,255} columns, segment widths N in {8,4,1}: interpolate_columns, evaluate_polys(_over)<N>, evaluate_columns_over, evaluate_columns_at, StarkDomain accessors; StarkDomain::new(air) for random computation descriptions with LDE blowup = 1..8 x constraint-evaluation blowup (sizes, generators, twiddles, get_ce_x_at on every step, get_ce_x_power_at for small / n / n/2 / random powers); row-major vs column-major LDE compared on every cell. distinct = distinct (type, size/width, generated polynomial) case".into(),
+        rule: "per case one size 2^k (k cycles over 1..max) and polynomial (random / low degree / monomial): evaluate_poly, serial_fft, interpolate_poly, evaluate_poly_with_offset (offset 1/generator/random, blowup 1..128), interpolate_poly_with_offset, infer_degree, twiddles vs direct evaluation at explicitly computed points (all points while n*deg <= limit, boundary+sampled points above); matrices of {1,2,3,7,8,9,15,16,17,31,64,85,254,255} columns, segment widths N in {8,4,1}: interpolate_columns, evaluate_polys(_over)<N>, evaluate_columns_over, evaluate_columns_at, StarkDomain accessors; StarkDomain::new(air) for random computation descriptions with LDE blowup = 1..8 x constraint-evaluation blowup (sizes, generators, twiddles, get_ce_x_at on every step, get_ce_x_power_at for small / n / n/2 / random powers; evaluate_columns_over and evaluate_polys_over on that domain); row-major vs column-major LDE compared on every cell. distinct = distinct (type, size/width, generated polynomial) case".into(),
         assumptions: vec![
             "reference: sum c_i x^i with explicit powers using the library's field operations (monitored by C07/C08); domain points built by repeated multiplication from get_root_of_unity (checked in C07)".into(),
             "for sizes where all-point comparison exceeds the budget, boundary points + random points are compared and the inverse transform must reproduce the coefficients exactly".into(),
